@@ -127,6 +127,15 @@ CHECKS = {
             "Trusted: TLC, Strings.tla. On 20 letters the comparison is with the constructive neighbourhood sets, shown equal to "
             "{y : Lev(x,y)=1} only on the small universes.",
             "TLA+ model checking (TLC) + spec-to-code replay + trace validation"),
+    "C15": ("DESIGN.md 4/C15",
+            "Clustering.tla: connected components by label propagation (Propagate, DropSingles) and single-linkage agglomeration with "
+            "nondeterministic tie-breaking (Merge, Stop); TLC checks LabelsAreComponents, ReportedNonSingletons, SingleLinkageIsComponents "
+            "(every tie-breaking ends in the components of the threshold graph), PartitionOK, MergeMonotone for every graph on <= 5 nodes and "
+            "every small distance matrix. Every terminal behaviour is executed on graph_clustering('cc') and hierarchical_clustering(single); "
+            "neighbour lists from the real search, community methods (refinement) and hierarchical clustering of strings / TCR tables are "
+            "validated by TraceClustering.tla (distances recomputed by TLC), other linkage methods against SciPy on the spec-checked vector.",
+            "Trusted: TLC; igraph community detection and SciPy non-single linkage (only refinement / equality on the spec's distances is checked).",
+            "TLA+ model checking (TLC) + spec-to-code replay + trace validation"),
     "C16": ("DESIGN.md 4/C16",
             "Estimators.tla gives chao1, chao2, the classical Chao variance and the set-overlap measures as exact rationals with NaN as a value; "
             "TLC checks ChaoNotBelowObserved, VarChaoExpanded, OverlapSymmetric for all small frequency-of-frequency vectors and all pairs of "
